@@ -94,6 +94,8 @@ func genConfig(w *world, o cfgOpts) *runConfig {
 			f.ReorderPPM = uint32(tp.intn(200000))
 			f.HoldMaxMs = pick(tp, 5, 20, 100, 400, 1500)
 		}
+		// some networks hold packets back until the very instant a timer of the system expires
+		f.AlignPPM = pick[uint32](tp, 0, 0, 20000, 100000, 300000)
 		if o.allowCorrupt && tp.intn(3) == 0 {
 			f.CorruptPPM = uint32(tp.intn(50000))
 		}
@@ -128,6 +130,7 @@ type xferDir struct {
 	flip          []bool    // the writer toggles ordered/unordered before write i (mixed ordering on one stream)
 	shortReads    bool      // the reader sometimes offers a buffer that is too small first
 	recvUnordered int       // directed scenarios: 1 = receiver configures its stream object unordered, 2 = ordered
+	dcepTail      bool      // C14: the last messages of an unordered stream are DCEP (ordered) messages
 	curUnordered  bool      // ordering mode the writer has currently set on its stream object
 
 	tx         *simStream
